@@ -258,6 +258,7 @@ func runC13(r *Run) error {
 		"forced self-loop / 2-cycle / 3-cycle families, time-delayed links, links into sensors, shuffled node order; per solver a random history of 0-6 operations, " +
 		"Flush, then 1-6 operations, compared with the same operations on a fresh instance; non-trivial = the graph is not feed-forward; distinct by network and operations"
 	c13DirectSolvers(r)
+	depthQueryHistories(r, "C13")
 	var inputs []c12Input
 	fams := []string{"random", "self-loop", "2-cycle", "3-cycle", "time-delayed", "into-sensors", "feed-forward-ish"}
 	n := r.N(300, 4000)
